@@ -16,6 +16,7 @@ the real ones through the whole sink.
 Request side: `serialize_request` and the body length rule of `ForwardedStreamSource`.
 -/
 import TT.Model.Bytes
+import TT.Gen.Consts
 namespace TT.Fwd
 open TT
 
@@ -109,6 +110,16 @@ def parseStatusLine (l : Bytes) : Option Nat :=
     some (a * 100 + b * 10 + c)
   | _ => none
 
+/-- the header array of `parse_response`: doubled, starting from the initial size, while it is shorter than the
+maximum (`fuel` bounds the doublings) -/
+def growCap (max : Nat) : Nat → Nat → Nat
+  | cap, 0 => cap
+  | cap, fuel + 1 => if cap < max then growCap max (2 * cap) fuel else cap
+
+/-- the largest number of header lines a response head may have (128 for the constants 32 and 128) -/
+def responseHeaderCapacity : Nat :=
+  growCap TT.Gen.max_response_headers_num TT.Gen.initial_response_headers_buffer_size 64
+
 def parseHeadBytes (b : Bytes) : Option Head :=
   match splitLines [] b with
   | [] => none
@@ -117,6 +128,8 @@ def parseHeadBytes (b : Bytes) : Option Head :=
     let hs ← (ls.filter (!·.isEmpty)).mapM fun h => do
       let (n, v) ← splitColon [] h
       some (lowerAll n, trim v)
+    -- more header lines than the array can grow to: "too many headers", the response is refused
+    if hs.length > responseHeaderCapacity then none else
     some { status := st, headers := hs }
 
 inductive BodyLen where
